@@ -167,6 +167,8 @@ def signatures_of(plan, hashseeds, pool, fresh=False):
         for v in o["violations"]:
             sigs.setdefault(v["sig"], v)
     for i in range(1, len(outs)):
+        if not CROSS_SEED_IS_VIOLATION.get(plan["prop"]):
+            break
         if outs[i]["cmp_digest"] != outs[0]["cmp_digest"]:
             div = first_divergence(outs[0]["comparable"], outs[i]["comparable"])
             if div:
@@ -421,6 +423,11 @@ TIERS = {
 }
 
 
+# A cross-interpreter divergence of the comparable log is a violation only where the property
+# says so (C15: "... or on the interpreter's hash seed").  For C13/C16 it is merely counted.
+CROSS_SEED_IS_VIOLATION = {"C15": True, "C16": False, "C13": False}
+
+
 class Run:
     def __init__(self, prop, tier, seed, workers=None, plans=None):
         self.prop, self.tier, self.seed = prop, tier, seed
@@ -493,7 +500,8 @@ class Run:
         all_sched = set()
         candidates = {}  # sig -> Candidate (first occurrence)
         sig_counts = {}
-        iso_seen = {}
+        cover = set()
+        cross_seed_divergences = 0
         errors = []
         alive = self.W
         while alive:
@@ -527,6 +535,7 @@ class Run:
                     all_sched.add(sig)
                     if res0["stats"].get("nontrivial"):
                         nontrivial.add(sig)
+                    cover.update(res0.get("cover") or ())
                     for hs_i, rep in reps[1:]:
                         ri = rep[j]
                         if ri["plan_digest"] != res0["plan_digest"]:
@@ -534,6 +543,9 @@ class Run:
                                           f"{res0['index']} digests {res0['plan_digest']} / {ri['plan_digest']}")
                             self.stop.set()
                         elif ri["cmp_digest"] != res0["cmp_digest"]:
+                            cross_seed_divergences += 1
+                            if not CROSS_SEED_IS_VIOLATION[self.prop]:
+                                continue
                             key = f"{self.prop}/I4/?"
                             sig_counts[key] = sig_counts.get(key, 0) + 1
                             if key not in candidates:
@@ -550,6 +562,7 @@ class Run:
             "hashseeds": sorted(set(self.hashseeds_used)),
             "distinct_hash_orders": len(self.canaries),
             "budget_exhausted": wall > self.budget,
+            "cover": cover, "cross_seed_divergences": cross_seed_divergences,
         }
 
 
